@@ -229,6 +229,87 @@ def _cross_owner_case(rng, j):
             'family': 'cross_owner'}
 
 
+# (record_inputs, record_outputs, record_residuals): residual-only and input-only first
+FLAG_COMBOS = [(False, False, True), (True, False, True), (True, False, False), (False, True, True),
+               (False, True, False), (True, True, False), (True, True, True), (False, False, False)]
+
+# system attachment points whose promoted (relative) output names differ from the absolute names,
+# with patterns written the documented way: promoted names relative to the recording system
+REL_PATTERNS = {
+    ('flat', 'root'): ['y', 'f', '?', 'y*'],
+    ('flat', 'c1'): ['y', '?'],
+    ('flat', 'c10'): ['f', '?'],
+    ('flat_arr', 'root'): ['y', 'f', '?'],
+    ('flat_arr', 'c1'): ['y'],
+    ('sellar_gs', 'root'): ['f', 'x', 'g.y1', 'g.y?', 'g.*'],
+    ('sellar_gs', 'g'): ['y1', 'y2', 'y?', '*1'],
+    ('sellar_gs', 'g.d1'): ['y1', 'y?'],
+    ('sellar_gs', 'obj'): ['f'],
+    ('sellar_newton', 'g'): ['y1', 'y2', 'y?'],
+    ('sellar_newton', 'root'): ['f', 'g.y2', 'x'],
+    ('tgroup', 't'): ['y1', 'y2', 'y?'],
+    ('tgroup', 'root'): ['t.y1', 't.*'],
+}
+# solver patterns are relative to the solver's group and matched against absolute names
+SOLVER_PATTERNS = {'g.nl': ['d1.y1', 'd?.y?', '*.y2', 'd2.*', 'd1.x'], 't.nl': ['d1.y1', '*.y2']}
+
+
+def _owner_flags_case(rng, j):
+    """Targeted family: system and solver recorders with every combination of
+    record_inputs/record_outputs/record_residuals (outputs off + residuals on, inputs only, ...) and
+    include/exclude patterns written as promoted names relative to the recording system, on systems
+    whose promoted names differ from the absolute names."""
+    keys = sorted(REL_PATTERNS)
+    t, a = keys[(j * 5 + j // len(keys)) % len(keys)] if j >= 2 else [('sellar_gs', 'g'), ('flat', 'root')][j]
+    pats = REL_PATTERNS[(t, a)]
+    ri, ro, rr = FLAG_COMBOS[j % len(FLAG_COMBOS)]
+    so = {'record_inputs': ri, 'record_outputs': ro, 'record_residuals': rr}
+    if j == 0:
+        so['includes'] = [pats[0]]
+    elif j == 1:
+        so['includes'] = ['*']
+        so['excludes'] = [pats[0]]
+    else:
+        r = rng.random()
+        if r < 0.45:
+            so['includes'] = rng.sample(pats, rng.choice([1, 1, 2]) if len(pats) > 1 else 1)
+        elif r < 0.8:
+            so['includes'] = ['*']
+            so['excludes'] = [rng.choice(pats)]
+        else:
+            so['includes'] = [rng.choice(pats)]
+            so['excludes'] = [rng.choice(pats)]
+    att, opts = [a], {a: so}
+    pts = TEMPLATES[t]
+    # a second owner with another flag combination: a solver of the same model or another system
+    others = [x for x in pts if x not in ('problem', 'driver', a)]
+    if others and rng.random() < 0.8:
+        b = rng.choice(others)
+        bi, bo, br = FLAG_COMBOS[(j + 3) % len(FLAG_COMBOS)]
+        if attach_kind(b) == 'solver':
+            o = {'record_inputs': bi, 'record_outputs': bo, 'record_solver_residuals': br}
+            if b in SOLVER_PATTERNS:
+                o['includes'] = rng.sample(SOLVER_PATTERNS[b], 2)
+                if rng.random() < 0.4:
+                    o['excludes'] = [rng.choice(SOLVER_PATTERNS[b])]
+        else:
+            o = {'record_inputs': bi, 'record_outputs': bo, 'record_residuals': br}
+            if (t, b) in REL_PATTERNS:
+                if rng.random() < 0.5:
+                    o['includes'] = [rng.choice(REL_PATTERNS[(t, b)])]
+                else:
+                    o['excludes'] = [rng.choice(REL_PATTERNS[(t, b)])]
+        att.append(b)
+        opts[b] = o
+    att = sorted(att, key=pts.index)
+    return {'template': t, 'driver': {'kind': 'none'}, 'attach': att, 'opts': opts, 'extra_opts': {},
+            'runs': [['run_model', None, True]], 'nl_iter': 2,
+            'init': [rng.choice([-1.0, 0.5, 2.0]), rng.choice([1.5, -0.5])],
+            'pre_load': rng.random() < 0.5, 'viewer': False, 'idx_problem': False,
+            'scaling': _scaling(rng, t) if rng.random() < 0.3 else {}, 'qseed': rng.randrange(1 << 30),
+            'family': 'owner_flags'}
+
+
 def _opts(rng, kind):
     flags = {'driver': DRIVER_FLAGS, 'problem': DRIVER_FLAGS, 'system': SYSTEM_FLAGS,
              'solver': SOLVER_FLAGS}[kind]
@@ -421,7 +502,9 @@ class C17(Property):
             "ScipyOptimizeDriver SLSQP up to 30 iterations} x CaseReader pre_load in {True, False}. "
             "A targeted family heads the stream: driver and Problem (shared selection code) get complementary "
             "record_* flags and different patterns, the driver's options being set also when it has no recorder, "
-            "plus a group/solver pair with complementary flags. "
+            "plus a group/solver pair with complementary flags; then system and solver recorders with every "
+            "combination of record_inputs/outputs/residuals (residual-only, input-only, ...) and patterns written as "
+            "promoted names relative to the recording system, on systems whose promoted and absolute names differ. "
             "Non-trivial: at least two cases recorded from at least two attachment points or a driver "
             "with >= 10 iterations; distinct by canonical case encoding.")
     assumptions = [
@@ -501,9 +584,10 @@ class C17(Property):
         return cfg
 
     def cases(self, rng, tier):
-        n = 12 if tier == 'quick' else 400
-        # targeted family first: options per recorder owner (driver / problem / system / solver)
-        out = [_cross_owner_case(rng, j) for j in range(6 if tier == 'quick' else 60)]
+        n = 10 if tier == 'quick' else 380
+        # targeted families first: options per recorder owner (driver / problem / system / solver)
+        out = [_cross_owner_case(rng, j) for j in range(5 if tier == 'quick' else 60)]
+        out += [_owner_flags_case(rng, j) for j in range(6 if tier == 'quick' else 104)]
         for k in range(n):
             r = rng.random()
             if r < 0.36:
@@ -990,7 +1074,7 @@ class C17(Property):
         if 'log' not in impl:
             return False
         atts = {e['att'] for e in impl['log']}
-        if case.get('family') == 'cross_owner' and len(impl['log']) >= 1:
+        if case.get('family') and len(impl['log']) >= 1:
             return True
         return (len(impl['log']) >= 2 and len(atts) >= 2) or len(impl['log']) >= 10
 
@@ -1022,9 +1106,16 @@ class C17(Property):
         if case.get('extra_opts'):
             b.append('options_on_owner_without_recorder')
         for a in case['attach']:
-            for k, v in case['opts'][a].items():
+            o = case['opts'][a]
+            for k, v in o.items():
                 if isinstance(v, bool):
                     b.append('%s.%s=%s' % (attach_kind(a), k, v))
+            if attach_kind(a) in ('system', 'solver'):
+                d = self.defaults(attach_kind(a))
+                d.update(o)
+                res = d.get('record_residuals', d.get('record_solver_residuals'))
+                b.append('%s.in/out/res=%d%d%d%s' % (attach_kind(a), d['record_inputs'], d['record_outputs'], res,
+                                                    '+patterns' if ('includes' in o or 'excludes' in o) else ''))
         sc = case.get('scaling') or {}
         if sc:
             b.append('scaled_outputs')
